@@ -34,13 +34,13 @@ theorem agree_partial (v : CValue) (h : ValueOk v) (dJ dC : CValue) (tC : CType)
   rw [hJ hJok]
   exact ⟨erase_eraseV v h, eraseT_id _⟩
 
-/-- `agree` for scalar values, unconditionally on the JSON side (C41 `roundtrip_partial`): the JSON
-decoder's result equals the erased CCF-erased value. -/
-theorem agree_scalar (v : CValue) (h : Verif.Proofs.Codec.Json.scalarOk v = true) :
+/-- `agree`, unconditional on the JSON side for the values of C41 `roundtrip_partial` (scalars,
+optionals, arrays, dictionaries, ranges, composite values): the JSON decoder's result is the erasure of
+what the CCF round trip yields (`eraseV v`). -/
+theorem agree_json_side (v : CValue) (h : Verif.Proofs.Codec.Json.plainOk v = true) (hv : ValueOk v) :
     decode (prepare v) = .ok (erase (eraseV v)) := by
-  have hv : eraseV v = v := by cases v <;> simp [Verif.Proofs.Codec.Json.scalarOk] at h <;> simp [eraseV]
-  rw [hv, Verif.Proofs.Codec.Json.erase_scalar v h]
-  exact Verif.Proofs.Codec.Json.rt_scalar v h
+  rw [erase_eraseV v hv]
+  exact Verif.Proofs.Codec.Json.rt_plain v h
 
 example : ValueOk (.arr (.varr (.prim "Int")) (.cons (.int "Int" 1) (.cons (.cap 1 [0,0,0,0,0,0,0,1] (.ref .unauth (.prim "Int"))) .nil))) := by
   simp [ValueOk, ValuesOk, eraseT]
